@@ -160,33 +160,42 @@ AllNamesExist ==
     Done /\ Applied /\ name \in ModelNames =>
         Holds("AllNamesExist", DOMAIN pars \ LegalKeysOf[name][sc.us])
 
-\* where the table sends an item, and what value arrives there
+\* where the table sends an item, and what value arrives there (h0 = H0, passed so that it is
+\* evaluated once per state)
 DeclKey(it) ==
     LET f == IF it.row = 0 THEN ChainBase(it.key, I0, Vi0) ELSE FinalOf[I0][it.row]
     IN IF f.base = "" THEN "" ELSE f.base \o (IF sc.us THEN UnderOf(it.dot) ELSE it.dot)
-DeclVal(it) ==
+DeclVal(it, h0) ==
     LET mid == IF it.row = 0 THEN it.key ELSE RowsOf[I0][it.row].new
     IN IF Rescales(Vi0, M0) /\ it.dot = "" /\ mid \in ScaledKeys(M0)
-       THEN MulV(H0[it.key], "1000000.0") ELSE H0[it.key]
-Constrained == {it \in ScItems(sc) : it.key \in DOMAIN H0 /\ H0[it.key].t # "opaque"}
+       THEN MulV(h0[it.key], "1000000.0") ELSE h0[it.key]
+Constrained(h0) == {it \in ScItems(sc) : it.key \in DOMAIN h0 /\ h0[it.key].t # "opaque"}
+\* [item key |-> declared final key] for the constrained items
+DeclMap(h0) == Table([k \in {it.key : it \in Constrained(h0)} |->
+                        DeclKey(CHOOSE it \in ScItems(sc) : it.key = k)])
 ValuesCarried ==
     Done /\ Applied =>
-        Holds("ValuesCarried",
-              {it.key : it \in {x \in Constrained :
-                    DeclKey(x) # "" /\ ~(DeclKey(x) \in DOMAIN pars /\ ValEq(pars[DeclKey(x)], DeclVal(x)))}})
+        LET h0 == Table(H0)
+            C == Constrained(h0)
+        IN Holds("ValuesCarried",
+              {it.key : it \in {x \in C :
+                    LET dk == DeclKey(x) IN
+                    dk # "" /\ ~(dk \in DOMAIN pars /\ ValEq(pars[dk], DeclVal(x, h0)))}})
 \* two old keys never arrive at the same place
 NoCollision ==
     Done /\ Applied =>
-        Holds("NoCollision",
-              {x.key : x \in {y \in Constrained : DeclKey(y) # "" /\
-                    \E z \in Constrained : z # y /\ DeclKey(z) = DeclKey(y)}})
+        LET dm == DeclMap(Table(H0))
+            keys == {k \in DOMAIN dm : dm[k] # ""}
+        IN Holds("NoCollision", {k \in keys : \E k2 \in keys : k2 # k /\ dm[k2] = dm[k]})
 
 DefaultsHold ==
     Done /\ Applied =>
-        Holds("Defaults",
+        LET h0 == Table(H0)
+            dk == {DeclKey(it) : it \in ScItems(sc)}
+        IN Holds("Defaults",
               {n \in {"scale", "background"} :
                   \/ n \notin DOMAIN pars
-                  \/ /\ n \notin DOMAIN H0
-                     /\ \A it \in ScItems(sc) : DeclKey(it) # n
+                  \/ /\ n \notin DOMAIN h0
+                     /\ n \notin dk
                      /\ ~ValEq(pars[n], NumV(IF n = "scale" THEN "1.0" ELSE "0.0"))})
 =============================================================================
